@@ -12,7 +12,7 @@ TITLE = "Triangulation exactly partitions every cell polygon"
 MC = {"quick": [("MC_C14", "MC_C14.cfg", 8)], "thorough": [("MC_C14", "MC_C14_thorough.cfg", 16)]}
 TRACE = ("Trace_C14", "Trace_C14.cfg")
 THOROUGH_EXTRA_SEEDS = 2
-REQUIRED = ["Triangulate", "holes", "concave", "collinear", "clockwise", "anticlockwise", "sides-3", "sides-4", "sides-6", "sides-8",
+REQUIRED = ["FreeTriangulate", "Triangulate", "holes", "concave", "collinear", "clockwise", "anticlockwise", "sides-3", "sides-4", "sides-6", "sides-8",
             "cf1d", "cf2d", "shoc_simple", "shoc_standard", "arakawa", "ugrid"]
 RULE = ("one case = one dataset: structured grids of every convention with holes, and lattice meshes mixing triangles, quads, "
         "2x1 hexagons with collinear vertices, L-shaped concave hexagons / octagons, clockwise and anticlockwise winding, any "
@@ -43,6 +43,16 @@ def cases(tier: str, seed: int) -> list[dict]:
     for w in worlds:
         CD.add_data_vars(w, rng, rich=False)
         out.append({"src": "gen", "world": w, "events": [{"a": "Triangulate"}]})
+    # meshes off the lattice: node coordinates in tenths of a degree next to the origin (decimal fractions, not exactly
+    # representable), with concave faces and faces with collinear vertices; judged structurally (FreeStructure)
+    for k, faces in enumerate(EXTRA_FACES):
+        for rev, (div, offx, offy) in ((False, (3.0, -0.41, 0.11)), (True, (3.0, 1.7, 0.11)), (False, (7.0, 0.03, -0.41)), (True, (3.0, -0.41, 0.11))):
+            fs = [f[::-1] if rev else f for f in faces]
+            w = GW.mesh_world(W.mesh_from_faces(fs, shape="rect"), enc={"base": k % 2, "fill": "intfill"})
+            CD.add_data_vars(w, rng, rich=False)
+            w["decimal"] = [div, offx, offy]
+            w["via"] = "memory"
+            out.append({"src": "gen", "world": w, "events": [{"a": "FreeTriangulate"}]})
     return out
 
 
@@ -58,6 +68,27 @@ def execute(case: dict) -> dict:
     ds = viafile.hold_ds(w, W.build(w))
     from ..cellsdrv import snapshot as _snapshot
     _before = _snapshot(ds)
+    if w.get("decimal"):
+        # the same mesh with its node coordinates in tenths of a degree: x / 120 quanta, shifted next to the origin
+        import numpy
+        nx_ = numpy.asarray(ds["Mesh2_node_x"].values, dtype=float); ny_ = numpy.asarray(ds["Mesh2_node_y"].values, dtype=float)
+        from ..worlds import SCALE
+        div, offx, offy = w["decimal"]
+        def units(a):
+            q = numpy.round(a / SCALE); q = q - q.min()
+            step = min(d for d in numpy.diff(numpy.unique(q)) if d > 0)
+            return numpy.round(q / step)
+        ds["Mesh2_node_x"] = (ds["Mesh2_node_x"].dims, units(nx_) / div + offx, dict(ds["Mesh2_node_x"].attrs))
+        ds["Mesh2_node_y"] = (ds["Mesh2_node_y"].dims, units(ny_) / div + offy, dict(ds["Mesh2_node_y"].attrs))
+        W.bind(w, ds)
+        rec = {"tid": case["tid"], "src": case["src"], "w": CD.tlc_world(w, ds), "events": []}
+
+        def free():
+            v, t, c = triangulate_dataset(ds)
+            return {"nv": int(len(v)), "triangles": [[as_int(i) for i in row] for row in numpy.asarray(t).tolist()],
+                    "cells": [as_int(i) for i in numpy.asarray(c).tolist()]}
+        rec["events"].append({"a": "FreeTriangulate", "obs": outcome(free)})
+        return rec
     W.bind(w, ds)
     rec = {"tid": case["tid"], "src": case["src"], "w": CD.tlc_world(w, ds), "events": []}
 
